@@ -57,6 +57,9 @@ impl Run {
 }
 
 pub fn write_config(overrides: &Value) {
+    seams::untraced(|| write_config_inner(overrides))
+}
+fn write_config_inner(overrides: &Value) {
     let txt = std::fs::read_to_string("/repo/proxy_agent/config/GuestProxyAgent.linux.json").expect("shipped config");
     let mut v: Value = serde_json::from_str(&txt).expect("shipped config json");
     if let (Some(o), Some(dst)) = (overrides.as_object(), v.as_object_mut()) {
@@ -143,6 +146,7 @@ pub fn host_fault_from_json(v: &Value) -> Option<HostFault> {
         "reset_after" => HostFault::ResetAfter,
         "stall" => HostFault::Stall(v["ms"].as_u64().unwrap_or(1000)),
         "cut" => HostFault::CutResponse(v["n"].as_u64().unwrap_or(10) as usize),
+        "key_doc" => HostFault::KeyDoc(v["variant"].as_str().unwrap_or("missing_issued").to_string()),
         _ => return None,
     })
 }
@@ -447,7 +451,22 @@ pub fn result_json(run: &Run, scenario: &str) -> Value {
         Ok(t) => h.log.iter().filter(|r| r.token.as_deref() == Some(t.as_str())).map(|r| format!("HOST {} sig={:?} raw_head={:?} body_len={} chunked={} chunks={:?}", r.host, r.sig, String::from_utf8_lossy(&r.msg.head.raw), r.msg.body.len(), r.msg.chunked, r.msg.chunk_sizes)).collect(),
         Err(_) => Vec::new(),
     };
+    let grep: Vec<String> = match std::env::var("VERIF_GREP_CAPTURE") {
+        Ok(pat) => {
+            let mut out = Vec::new();
+            for (class, data) in seams::take_capture().iter() {
+                for line in String::from_utf8_lossy(data).lines() {
+                    if line.contains(pat.as_str()) {
+                        out.push(format!("{}: {}", class, line.chars().take(600).collect::<String>()));
+                    }
+                }
+            }
+            out
+        }
+        Err(_) => Vec::new(),
+    };
     json!({
+        "grep": grep,
         "debug": debug,
         "scenario": scenario,
         "seed": run.seed,
